@@ -13,6 +13,7 @@ from vc2_conformance.decoder.io import (
 )
 
 from vc2_conformance.decoder.exceptions import (
+    FragmentedPictureMissingInitialFragment,
     FragmentedPictureRestarted,
     PictureNumberChangedMidFragmentedPicture,
     TooManySlicesInFragmentedPicture,
@@ -85,6 +86,15 @@ def fragment_header(state):
 
         state["_picture_initial_fragment_offset"] = fragment_offset
     else:
+        # Errata: not specified in standard...
+        #
+        # (14.2) Slices may only be received once a fragment with
+        # fragment_slice_count==0 has started a fragmented picture
+        if "_picture_initial_fragment_offset" not in state:
+            raise FragmentedPictureMissingInitialFragment(
+                fragment_offset,
+                state["fragment_slice_count"],
+            )
         # (14.2) Appart from when fragment_slice_count==0, the picture number
         # must not change
         if state["_last_picture_number"] != state["picture_number"]:
